@@ -24,7 +24,14 @@ RULE = (
     "shape (random / equal factors / equal up to sign pairs).  Oracle: mean of np.transpose over the product of "
     "within-group permutations (exact for integer-valued data, rounding bound otherwise), exact invariance test under "
     "adjacent within-group swaps.  Non-trivial: a group that is a proper subset of the modes (or several groups), "
-    "with at least two modes in it, on data that is not symmetric."
+    "with at least two modes in it, on data that is not symmetric.  Round 2: operands are constructed, grown by "
+    "assignment, held as int64, or the result of an earlier symmetrize (new or old version) over the first / all but "
+    "the last / the last / all groups; two groups of two modes ('pairs') and data exactly symmetric in all but the "
+    "last group / in the last group only are drawn on purpose (label symmetric-in-earlier-group-not-in-later); group "
+    "arrays are int64 / int32 / uint8; float data also scaled by 1e+6 / 1e-6; every call is repeated on the same "
+    "object and the symmetry test is put to the result object of symmetrize itself, through both implementations; "
+    "Kruskal operands come through the C08 provenances (sum, extract, permute, ttv, unit columns, absorbed weights, "
+    "scaled) with tied weights and zero columns."
 )
 ASSUMPTIONS = [
     "symmetrisation reference: sum of np.transpose(A, p) over all p permuting modes within groups, divided by the count",
@@ -32,7 +39,8 @@ ASSUMPTIONS = [
     "within 64*count*eps*mean(|A|)",
     "symmetry reference: A equals np.transpose(A, swap) exactly for every adjacent swap inside a group; groups with "
     "unequal mode sizes are not symmetric",
-    "groups are passed as a rectangular integer array (all groups of one call have the same length)",
+    "groups are passed as a rectangular integer array (all groups of one call have the same length); lists and "
+    "tuples are rejected by pyttb (AttributeError: the parameter is documented as np.ndarray) and are not used",
     "Kruskal: symmetric means all factor matrices equal (the Kruskal test); the denoted array is compared within the "
     "C08 rounding bound, never with the exact dense test",
 ]
@@ -46,6 +54,43 @@ logging.disable(logging.WARNING)
 
 def _A(case):
     return gen.arr_F(case["shape"], case["data"])
+
+
+def _operand(ctx, case):
+    """(X, A, effective case): the dense operand in the state the case asks for - constructed, grown by assignment
+    (gen.build_tensor, prov), held as int64, or the result of an earlier symmetrize ('pre'); A is the array it denotes.
+    For 'pre' A is read back from the object after the earlier result was compared with the reference average; when
+    that call fails or is wrong (judged in its own cell) the freshly constructed operand is used."""
+    A = _A(case)
+    if case.get("dt") == "int64":
+        X = ttb.tensor(A.astype(np.int64).copy(order="F"), tuple(case["shape"]))
+        ctx.label("operand:int64")
+    else:
+        X = gen.build_tensor(case)
+    if gen.is_grown(X):
+        ctx.label("operand:grown")
+    pre = case.get("pre")
+    if not pre:
+        return X, A, case
+    pg = H.pre_groups(case)
+    Y = None
+    try:
+        Y = X.symmetrize(H.grps_array(pg, "2d"), version=pre["version"])
+    except Exception:  # noqa: BLE001
+        pass
+    expect, nperm = H.sym_mean(A, pg)
+    bound, _ = H.sym_mean(np.abs(A), pg)
+    if not (isinstance(Y, ttb.tensor) and tuple(Y.shape) == A.shape and ref.same_bound(ref.den(Y), expect, bound, nperm)
+            and H.invariant(ref.den(Y), pg)):
+        ctx.label("pre-fallback")
+        return X, A, case
+    A2 = ref.den(Y)
+    eff = dict(case, data=[float(v) for v in A2.flatten(order="F")], data_class="result-of-symmetrize",
+               vkind="int" if ref.is_intvalued(A2) else "float")
+    ctx.label("operand:result-of-symmetrize-" + ("old" if pre["version"] else "new"), "pre-" + pre["which"])
+    if not np.asarray(Y.data).flags["F_CONTIGUOUS"]:
+        ctx.label("operand:not-F-contiguous")
+    return Y, A2, eff
 
 
 def _nt(case, A):
@@ -76,9 +121,8 @@ def issymmetric(ctx, case):
 
 
 def _issym_body(ctx, case):
-    A = _A(case)
+    X, A, case = _operand(ctx, case)
     N, groups = len(case["shape"]), case["groups"]
-    X = gen.build_tensor(case)
     truth = H.invariant(A, groups)
     ctx.nt = _nt(case, A) or (not H.is_single_full_group(N, groups) and any(len(x) >= 2 for x in groups)
                                and case["data_class"] != "random")
@@ -86,6 +130,8 @@ def _issym_body(ctx, case):
               "details" if case["details"] else "plain")
     if case["size_mismatch"]:
         ctx.label("size-mismatch")
+    if H.symmetric_early_not_later(A, groups):
+        ctx.label("symmetric-in-earlier-group-not-in-later")
     with ctx.sut("tensor.issymmetric"):
         out = X.issymmetric(H.grps_arg(case), version=case["version"], return_details=case["details"])
     if case["details"] and not case["size_mismatch"]:
@@ -96,6 +142,15 @@ def _issym_body(ctx, case):
     ctx.require(isinstance(ans, (bool, np.bool_)), "issymmetric-returns-bool", type(ans).__name__)
     ctx.check(bool(ans) == truth, "issymmetric-answer-equals-invariance-test", f"got {ans} truth {truth}")
     ctx.check(ref.same_exact(ref.den(X), A), "issymmetric-leaves-operand")
+    # the same question again on the same object, through the other implementation and through the same one
+    with ctx.sut("tensor.issymmetric-again"):
+        again = X.issymmetric(H.grps_arg(case), version=case["version"], return_details=case["details"])
+        other = X.issymmetric(H.grps_arg(case), version=None if case["version"] else 1)
+    again = again[0] if isinstance(again, tuple) else again
+    ctx.check(isinstance(again, (bool, np.bool_)) and bool(again) == bool(ans), "issymmetric-second-call-same-answer",
+              f"{ans} then {again}")
+    ctx.check(isinstance(other, (bool, np.bool_)) and bool(other) == truth, "issymmetric-two-implementations-agree",
+              f"other version {other} truth {truth}")
     if diffs is not None:
         diffs, perms = np.asarray(diffs, dtype=float), np.asarray(perms)
         ctx.check(bool((diffs.reshape(-1) == 0).all()) == bool(ans), "issymmetric-details-consistent-with-answer", diffs.tolist())
@@ -134,6 +189,18 @@ def _check_symmetrize(ctx, X, A, case, version, tag):
     if case["data_class"] == "symmetric":
         keep = ref.same_exact(got, A) if case["vkind"] == "int" else ref.same_bound(got, A, np.abs(A), nperm)
         ctx.check(keep, f"symmetrize-{tag}-symmetric-input-keeps-value", ref.diff_info(got, A))
+    # the result object itself passes the symmetry test (both implementations) whenever it is exactly symmetric
+    if H.invariant(got, groups):
+        with ctx.sut(f"tensor.issymmetric-on-{tag}-result"):
+            a_new = R.issymmetric(garg)
+            a_old = R.issymmetric(garg, version=1)
+        ctx.check(bool(a_new) is True and bool(a_old) is True, f"symmetrize-{tag}-result-passes-issymmetric", (a_new, a_old))
+    # the same call again on the same operand gives the same tensor; the first result is not disturbed
+    with ctx.sut(f"tensor.symmetrize-{tag}-second-call"):
+        Rb = X.symmetrize(garg, version=version)
+    ctx.check(isinstance(Rb, ttb.tensor) and ref.same_exact(ref.den(Rb), got), f"symmetrize-{tag}-second-call-same",
+              ref.diff_info(ref.den(Rb), got) if isinstance(Rb, ttb.tensor) else type(Rb).__name__)
+    ctx.check(ref.same_exact(ref.den(R), got), f"symmetrize-{tag}-result-stable")
     with ctx.sut(f"tensor.symmetrize-{tag}-again"):
         R2 = R.symmetrize(garg, version=version)
     got2 = ref.den(R2)
@@ -149,11 +216,12 @@ def symmetrize(ctx, case):
 
 
 def _symmetrize_body(ctx, case):
-    A = _A(case)
+    X, A, case = _operand(ctx, case)
     groups = case["groups"]
-    X = gen.build_tensor(case)
     ctx.nt = _nt(case, A)
     ctx.label(*H.sym_labels(case))
+    if H.symmetric_early_not_later(A, groups):
+        ctx.label("symmetric-in-earlier-group-not-in-later")
     Rn, gn = _check_symmetrize(ctx, X, A, case, None, "new")
     Ro, go = _check_symmetrize(ctx, X, A, case, 1, "old")
     bound, nperm = H.sym_mean(np.abs(A), groups)
@@ -265,7 +333,7 @@ def _den_symmetric(D, tol):
 
 @cell("C15/ktensor", strategy=_ksym_case, quick=1200, thorough=16000, shards=(2, 12))
 def ktensor_sym(ctx, case):
-    K = gen.build_ktensor(case)
+    K, case = H8.operand(ctx, case)
     F0, w0 = H8.fms_of(case), H8.w_of(case)
     N, R = len(case["shape"]), case["rank"]
     cubical = len(set(case["shape"])) == 1
@@ -281,6 +349,9 @@ def ktensor_sym(ctx, case):
         ans = K.issymmetric()
     ctx.require(isinstance(ans, (bool, np.bool_)), "kt-issymmetric-returns-bool", type(ans).__name__)
     ctx.check(bool(ans) == equal, "kt-issymmetric-true-iff-all-factors-equal", (ans, equal))
+    with ctx.sut("ktensor.issymmetric-again"):
+        ans_b = K.issymmetric()
+    ctx.check(isinstance(ans_b, (bool, np.bool_)) and bool(ans_b) == bool(ans), "kt-issymmetric-second-call-same-answer")
     if ans:
         ctx.check(_den_symmetric(D0, 64 * nterm * EPS * B0), "kt-issymmetric-true-implies-symmetric-array")
     with ctx.sut("ktensor.issymmetric-diffs"):
@@ -317,6 +388,14 @@ def ktensor_sym(ctx, case):
     # (the latter denote the same array as the equal-factor tensor)
     if case["class"] in ("equal-factors", "equal-up-to-sign-pairs"):
         ctx.check(ref.same_bound(DS, D0, B0, 4 * nterm), "kt-symmetrize-symmetric-input-keeps-value", ref.diff_info(DS, D0))
+    # the same call again on the same operand: the same answer, the first result untouched
+    snapS = (S.weights.copy(), [f.copy() for f in S.factor_matrices])
+    with ctx.sut("ktensor.symmetrize-second-call"):
+        Sb = K.symmetrize()
+    ctx.check(isinstance(Sb, ttb.ktensor) and np.array_equal(Sb.weights, snapS[0]) and all(
+        np.array_equal(a, b) for a, b in zip(Sb.factor_matrices, snapS[1])), "kt-symmetrize-second-call-same")
+    ctx.check(np.array_equal(S.weights, snapS[0]) and all(np.array_equal(a, b) for a, b in zip(S.factor_matrices, snapS[1])),
+              "kt-symmetrize-result-stable")
     # symmetrising again changes nothing
     with ctx.sut("ktensor.symmetrize-again"):
         S2 = S.symmetrize()
